@@ -43,6 +43,17 @@ def make(rng, S):
         base = [xs[0], xs[-1], vlib.next_up32(xs[0]), vlib.next_down32(xs[-1]), xs[1], r32(rng.uniform(xs[0], xs[-1]))]
     else:
         xs = gen.axis_f(rng, n, rng.choice(["unit", "uniform", "random"]))
+        if rng.random() < 0.5:
+            # ends straddling zero for which re-basing rounds: fl(x0 + fl(xn - x0)) != xn (about 1 % of random axes, never dyadic ones), so
+            # the wrapped image of a query a few floats below x0 lands a float *above* xn (seed C07-r11m1: a range check after the wrap)
+            for _ in range(4000):
+                a, b = -rng.uniform(0.05, 1.0), rng.uniform(0.05, 2.0)
+                if a + (b - a) != b:
+                    inner = sorted(rng.uniform(a, b) for _ in range(n - 2))
+                    cand = [a] + inner + [b]
+                    if all(u < v for u, v in zip(cand, cand[1:])):
+                        xs = cand
+                        break
         flat = [rng.uniform(-3, 3) for _ in range(n * L)]
         P = xs[-1] - xs[0]
         base = [xs[0], xs[-1], vlib.next_up(xs[0]), vlib.next_down(xs[-1]), xs[1], rng.uniform(xs[0], xs[-1])]
